@@ -1105,11 +1105,6 @@ def _cls_nesterov_momentum(fname, rel, s1, s2, det):
     return abs(r1["d"] - factor * r0["d"]) <= 1e-3 * (scene_L(t1, t2) + factor * scene_L(s1, s2))
 
 
-def _size_ratio(s1, s2):
-    sizes = [x for x in shape_sizes(s1) + shape_sizes(s2) if x > 0]
-    return max(sizes) / min(sizes) if sizes else 1.0
-
-
 def _one_matches_reference(ref_fn, rel, s1, s2, det, k):
     """the reference algorithm satisfies the relation on the two scenes and agrees with one of the two answers"""
     t1, t2, factor = _transformed_scene(rel, s1, s2, det)
@@ -1121,19 +1116,6 @@ def _one_matches_reference(ref_fn, rel, s1, s2, det, k):
         return False
     d0, d1 = _d01(det, factor)
     return min(abs(d0 - r0["d"]), abs(d1 - r0["d"])) <= 2 * k * L
-
-
-def _cls_gjk_jolt(fname, rel, s1, s2, det):
-    """gjk (gjk_distance_jolt), distance output, on (a) exactly aligned features or small-denominator rational
-    coordinates (lattice scenes: exact ties in support functions / simplex solver) or (b) feature sizes differing by
-    a factor >= 500 (needle-like simplices).  Mechanism signature: gjk_distance_original satisfies the relation on the
-    same two scenes and agrees with ONE of the two jolt answers (the other is not optimal).
-    Related: F-C18-jolt-illcond, F-C18-jolt-abs-eps (simplex solver of _gjk_jolt.py)."""
-    if fname != "gjk" or det["what"] != "d":
-        return False
-    if not (degenerate_placement(s1, s2) or lattice_scene(s1, s2) or _size_ratio(s1, s2) >= 500.0):
-        return False
-    return _one_matches_reference("gjk_distance_original", rel, s1, s2, det, 1e-3)
 
 
 def _cls_gjk_original_zero(fname, rel, s1, s2, det):
@@ -1170,7 +1152,6 @@ _FINDING_CLASSES = [
     ("F-c12-epa-inward-winding", _cls_epa_winding),
     ("F-c12-nesterov-momentum", _cls_nesterov_momentum),
     ("F-c12-nesterov-degenerate", _cls_nesterov_degenerate),
-    ("F-c12-gjk-jolt-simplex", _cls_gjk_jolt),
     ("F-c12-gjk-original-zero", _cls_gjk_original_zero),
 ]
 
@@ -1644,6 +1625,7 @@ def known_witnesses():
         w = k.get("witness")
         if k.get("property") == "C12" and k.get("status") in ("known", "fixed") and isinstance(w, dict) and "s1" in w:
             out.append(w)
+            out += [x for x in k.get("more_witnesses", []) if isinstance(x, dict) and "s1" in x]
     return out
 
 
